@@ -13,6 +13,7 @@ import NumbersModel.Lemmas.NumFmt
 import NumbersModel.Lemmas.CustomFmt
 import NumbersModel.Lemmas.LimitDen
 import NumbersModel.Lemmas.SciFmt
+import NumbersModel.Lemmas.TrNumFmt
 import NumbersModel.Gen.Constants
 namespace NumbersModel.Props.C13
 open NumbersModel NumbersModel.Digits NumbersModel.NumFmt
@@ -460,3 +461,44 @@ example : formattedValueRenderer ⟨false, false, false, false, none, none, none
 end Custom
 
 end NumbersModel.Props.C13
+
+/-! ## Two's complement and fraction layout over the definitions regenerated from the Python source
+
+`Gen/TrNumFmt.lean` is produced by `harness/py2lean.py` from `cell.py` (`_invert_bit_str`, `_twos_complement`,
+`_format_fraction_parts_to`) in the working tree on every check run. `Lemmas/TrNumFmt.lean` proves the
+character-level code (bit string of `abs(value)`, inversion, `rjust` with ones, `int(…, 2) + 1`, `bin/oct/hex`)
+equal to the arithmetic model `2^bits − a`, and the fraction layout equal to `fractionParts`. -/
+namespace NumbersModel.Props.C13.Src
+open NumbersModel NumbersModel.Digits NumbersModel.NumFmt NumbersModel.Gen.T NumbersModel.Translated
+
+/-- what `_twos_complement(-a, base)` returns reads back, in that base, as `2^bits − a` with
+    `bits = max 32 (⌈log₂ a⌉ + 1)`; read as a signed `bits`-bit number it is `−a`; base 2 shows exactly `bits` digits. -/
+theorem src_twos_complement_value (a base : Nat) (ha : 1 ≤ a) (hb : base = 2 ∨ base = 8 ∨ base = 16) :
+    let bits := max 32 (clog2 a + 1)
+    ∃ t, twos_complement (-(a : Int)) (base : Int) = .ok t ∧
+      parseBase base t = 2 ^ bits - a ∧ 2 ^ (bits - 1) ≤ 2 ^ bits - a ∧ 32 ≤ bits ∧
+      ((parseBase base t : Int) - 2 ^ bits = -(a : Int)) ∧ (base = 2 → t.length = bits) := by
+  intro bits
+  obtain ⟨h1, h2, h3, _, h5, h6⟩ := C13.twos_complement_value a base ha hb
+  exact ⟨twosComplement a base, twos_complement_eq_model a ha base hb, h1, h2, h3, h5, h6⟩
+
+/-- the fraction layout of `_format_fraction_parts_to`: sign kept, `den/den` carried, zero numerator hidden, zero is `0`. -/
+theorem src_fraction_parts_normal_form (whole numerator : Int) (den : Nat) :
+    let neg := whole < 0 ∨ numerator < 0
+    let carry := numerator.natAbs = den
+    let w := if carry then whole.natAbs + 1 else whole.natAbs
+    let n := if carry then 0 else numerator.natAbs
+    format_fraction_parts_to whole numerator (den : Int) = .ok (
+      if w > 0 then
+        (if neg then ['-'] else []) ++ natStr w ++ (if n = 0 then [] else [' '] ++ natStr n ++ ['/'] ++ natStr den)
+      else if n = 0 then ['0']
+      else (if neg then ['-'] else []) ++ natStr n ++ ['/'] ++ natStr den) := by
+  intro neg carry w n
+  rw [format_fraction_parts_to_eq_model]
+  exact congrArg Except.ok (C13.fraction_parts_normal_form whole numerator den)
+
+example : twos_complement (-5) 2 = .ok "11111111111111111111111111111011".toList := by decide +kernel
+example : twos_complement (-5) 16 = .ok "FFFFFFFB".toList := by decide +kernel
+example : format_fraction_parts_to (-2) (-1) 2 = .ok "-2 1/2".toList := by decide +kernel
+
+end NumbersModel.Props.C13.Src
